@@ -19,6 +19,8 @@ pub mod cryptography {
         ensures r is Ok, r->Ok_0@ == enc_spec(*message, *secret)
     { unimplemented!() }
     #[verifier::external_body]
+    pub fn get_random_keypair() -> (r: (SecretKey, PublicKey)) ensures r.1 == pk_of(r.0) { unimplemented!() }
+    #[verifier::external_body]
     pub fn recover_pk(msg: &[u8], sig: &str) -> (r: Result<PublicKey, Secp256k1Error>)
         ensures match r { Ok(pk) => recover_spec(msg@, sig@) == Some(pk), Err(_) => recover_spec(msg@, sig@) is None }
     { unimplemented!() }
